@@ -18,6 +18,8 @@ pub struct Config {
     pub max_outbound: u32,
     pub interval: u64,
     pub blocks_in_transit: usize,
+    /// size limit of the pending transaction pool (the binary uses PendingTxs::default() = 64)
+    pub pending_limit: usize,
 }
 
 impl Default for Config {
@@ -27,6 +29,7 @@ impl Default for Config {
             max_outbound: 1,
             interval: 4,
             blocks_in_transit: 16,
+            pending_limit: 64,
         }
     }
 }
@@ -80,7 +83,7 @@ impl Client {
     pub fn open(dir: PathBuf, consensus: Consensus, cfg: Config) -> Self {
         let storage = Storage::new(dir.to_str().unwrap());
         storage.init_genesis_block(consensus.genesis_block().data());
-        let pending = Arc::new(RwLock::new(PendingTxs::default()));
+        let pending = Arc::new(RwLock::new(PendingTxs::new(cfg.pending_limit)));
         let peers = Arc::new(Peers::new(
             cfg.max_outbound,
             cfg.interval,
